@@ -227,6 +227,7 @@ def supply_conserved(ops, impl):
 
 def funds_visible(ops, impl):
     b = binds_of(ops)
+    stk = any(o.startswith("stk-") for o in ops)
     app = "1"
     bank = {}          # app -> bank as of the last dump, valid while no state-changing op intervened
     for n, (op, out) in enumerate(zip(ops, impl)):
@@ -244,7 +245,22 @@ def funds_visible(ops, impl):
         if h in READ_OPS or h in ("trace", "rawhash", "bind", "bind2", "bind2x", "bindc", "section", "nondet"):
             continue
         cur = bank.pop(app, None)      # any other op may change balances: the snapshot is used for this op only
-        if h != "exec" or cur is None or n + 1 >= len(ops) or ops[n + 1] != "trace" or not impl[n + 1].startswith("trace["):
+        if cur is None or n + 1 >= len(ops) or ops[n + 1] != "trace" or not impl[n + 1].startswith("trace["):
+            continue
+        if h in TX_OPS and h != "sudo-mint" and not stk:
+            # "attaching more than the sender owns fails without running the contract": nobody can own more than exists.
+            # Within one transaction coins are only moved or burnt, so the supply of the last dump bounds every attachment.
+            sup = totals(cur)
+            for e in impl[n + 1][6:-1].split(" || "):
+                t = e.split("|", 1)[0].split(" ")
+                if len(t) >= 8 and t[1] in ("execute", "instantiate") and t[4] != "-":
+                    for c in t[4].split(","):
+                        if re.fullmatch(r"\d+:\w+", c):
+                            a, dn = c.split(":")
+                            if int(a) > sup.get(dn, 0):
+                                return ("op %d `%s`: %s ran `%s` with attached funds %s from %s, but only %d %s exist on the whole chain — "
+                                        "the sender cannot own them" % (n, op[:160], t[0], t[1], c, t[3], sup.get(dn, 0), dn))
+        if h != "exec":
             continue
         items = parse_sx(op)
         if not items or len(items) < 3 or not isinstance(items[2], list) or not items[2] or not isinstance(items[1], str):
@@ -287,3 +303,71 @@ def funds_visible(ops, impl):
                 return ("op %d `%s`: while `%s` runs with funds %s from %s, its bank query for %s/%s answers %s, but the balance before the call was "
                         "%d and the funds must already have moved (expected %d)" % (n, op[:200], entry, funds, items[1], a[1], a[2], g, before, want))
     return None
+
+
+def pred_c09_wasm(ops, impl):
+    """C09 on the path from contracts to the ledger (slice wasm of C09)"""
+    return supply_conserved(ops, impl) or funds_visible(ops, impl)
+
+
+def own_events_unchanged(ops, impl):
+    """C13/C04: "accepted keys, values and event types surface unchanged": the response of a successful top-level call starts
+    with the entry-point event, then `wasm` with the contract's attributes (if any), then one `wasm-<type>` per custom event
+    of the contract's own response, each with `_contract_address` first and its attributes in order, all byte-for-byte."""
+    from pred_wasm import pdec, parse_events
+    for n, (op, out) in enumerate(zip(ops, impl)):
+        if not out.startswith("ok ["):
+            continue
+        items = parse_sx(op)
+        if not items:
+            continue
+        script = None
+        if items[0] == "exec" and len(items) > 2 and isinstance(items[2], list) and items[2] and items[2][0] == "exec" and len(items[2]) > 2:
+            script = items[2][2]
+        elif items[0] in ("sudo-wasm", "wasm-sudo") and len(items) > 2:
+            script = items[2]
+        if not isinstance(script, list):
+            continue
+        parts = out.split(" ")
+        evs = parse_events(parts[1]) if len(parts) > 1 else None
+        if not evs:
+            continue
+        try:
+            attrs = [(pdec(a[1]), pdec(a[2])) for a in script if isinstance(a, list) and a and a[0] == "attr" and len(a) == 3]
+            customs = []
+            for a in script:
+                if isinstance(a, list) and a and a[0] == "ev" and len(a) >= 2 and isinstance(a[1], str):
+                    kv = []
+                    for x in a[2:]:
+                        if not (isinstance(x, list) and len(x) == 2 and isinstance(x[0], str) and isinstance(x[1], str)):
+                            raise ValueError
+                        kv.append((pdec(x[0]), pdec(x[1])))
+                    customs.append(("wasm-" + pdec(a[1]), kv))
+            if any(isinstance(a, list) and a and a[0] in ("attr", "ev") and not all(isinstance(x, (str, list)) for x in a) for a in script):
+                continue
+        except (ValueError, IndexError):
+            continue
+        got = [(pdec(t), [(pdec(k), pdec(v)) for k, v in kv if True]) for t, kv in evs]
+        k = 1
+        if attrs:
+            if len(got) <= k or got[k][0] != "wasm" or got[k][1][1:] != attrs:
+                return "op %d `%s`: the `wasm` event does not carry the contract's attributes unchanged: expected %s, got %s" % (
+                    n, op[:160], attrs, got[k] if len(got) > k else None)
+            k += 1
+        for j, (ty, kv) in enumerate(customs):
+            if len(got) <= k + j or got[k + j][0] != ty or got[k + j][1][1:] != kv:
+                return "op %d `%s`: custom event %d must surface as %r with attributes %s, got %s" % (
+                    n, op[:160], j, ty, kv, got[k + j] if len(got) > k + j else None)
+    return None
+
+
+def pred_c14_wasm(ops, impl):
+    """C14 on slice wasm-stk: "no sequence of valid staking operations and block updates makes the simulator panic" — the
+    generator of this slice issues only valid set-up (commission <= 1, whole-second non-decreasing block times), so any
+    `panic` answer of a transaction, sudo or block change is a violation; plus the atomicity / supply checks of C01."""
+    import pred_wasm
+    for n, (op, out) in enumerate(zip(ops, impl)):
+        h = op.split(" ", 1)[0]
+        if out == "panic" and (h in TX_OPS or h in ("block", "next-block", "sudo-slash")):
+            return "op %d `%s` made the simulator panic" % (n, op[:200])
+    return pred_wasm.pred_c01(ops, impl)
